@@ -184,3 +184,39 @@ def c09(prop, tier, seed, core):
 
 
 HANDLERS["C09"] = c09
+
+
+def c16(prop, tier, seed, core):
+    import subprocess
+    # the disabled build lives in its own workspace so that feature unification cannot enable tracing
+    inert_dir = os.path.join(core.VERIF, "harness-inert")
+    r = core.sh(["cargo", "build", "-q"], cwd=inert_dir, timeout=1500)
+    m = core.check_progsim_family(prop, tier, seed)
+    work = os.path.join(core.WORK, prop)
+    if r.returncode != 0:
+        m["inconclusive"].append("disabled-build harness failed to build: " + r.stdout[-300:])
+        return m
+    shards, steps = (4, 200000) if tier == "quick" else (16, 3000000)
+    jobs = []
+    for n in range(shards):
+        out = os.path.join(work, "inert-%02d.json" % n)
+        jobs.append(("inert#%d" % n, [os.path.join(inert_dir, "target", "debug", "inert"), "--seed", str(_seed(seed, 100 + n)), "--steps", str(steps), "--out", out], out))
+    res = core.run_shards(prop, jobs, 600)
+    mi = core.merge(prop, tier, seed, res, core.known_for(prop), engine="inert")
+    m["evaluations"] += mi["evaluations"]
+    m["distinct"] += mi["distinct"]
+    m["violations"].extend(mi["violations"])
+    m["inconclusive"].extend(mi["inconclusive"])
+    m["cov"]["disabled_build"] = {k: mi["cov"].get(k) for k in ("ops_by_kind", "shards")}
+    m["cov"]["disabled_build"]["api_calls"] = mi["evaluations"]
+    known_sigs = [e["signature"] for e in core.known_for(prop)]
+    add_hostile(m, core, prop, work, tier, ["lazy-pre-reporter", "pre-reporter"], known_sigs)
+    m["rule"] = (core.RULES["progsim"] + " C16 adds: (a) a separate binary linked against fastrace WITHOUT `enable` runs seeded random sequences over the whole "
+                 "public API (spans, scopes, local collectors, adapters, #[trace] functions, flush, other threads) with counting closures, a counting "
+                 "reporter and /proc/self/task thread counts: all three counts must stay zero / unchanged and every context accessor must return "
+                 "None; (b) enabled build: the model knows for every closure-taking call whether the target is recording; the number of closure "
+                 "invocations per operation must equal the model's (no-op spans, no local parent, unsampled lines => 0); (c) before set_reporter.")
+    return m
+
+
+HANDLERS["C16"] = c16
